@@ -225,6 +225,89 @@ theorem array_values_reparse (vs : List (List Char)) : readArrayValues (quoteArr
   have := mapM_fieldOf_units vs
   simpa using this
 
+/-! ### `trap` in a subshell (`saved=$(trap)`, `trap | …`, `(trap)`) -/
+
+/-- trap table with at most one entry per condition (true of every state the definition commands build:
+    `trapKeys_nodup_empty`, `setTrap_nodup`) -/
+def TrapKeysNodup (s : State) : Prop := (s.traps.map (·.1)).Nodup
+
+theorem trapKeys_nodup_empty : TrapKeysNodup ({} : State) := by
+  simp [TrapKeysNodup]
+
+theorem setTrap_nodup (s : State) (cond : String) (action : List Char) (h : TrapKeysNodup s) :
+    TrapKeysNodup (s.setTrap cond action) := by
+  unfold TrapKeysNodup at *
+  have hf : ((s.traps.filter (·.1 ≠ cond)).map (·.1)).Nodup := by
+    have : (s.traps.filter (·.1 ≠ cond)).map (·.1) = (s.traps.map (·.1)).filter (· ≠ cond) := by
+      simp [List.filter_map, Function.comp_def]
+    rw [this]; exact h.filter _
+  unfold State.setTrap
+  by_cases ha : action = ['-']
+  · simpa [ha] using hf
+  · simp only [ha, if_false, List.map_append, List.map_cons, List.map_nil]
+    rw [List.nodup_append]
+    refine ⟨hf, by simp, ?_⟩
+    intro a ha' b hb
+    simp at hb; subst hb
+    simp [List.mem_filter] at ha'
+    intro e
+    exact ha'.2 e
+
+theorem find_split_cmd_ignore (l : List (String × List Char)) (key : String)
+    (hnd : (l.map (·.1)).Nodup) :
+    (match (l.filter (fun t => !t.2.isEmpty)).find? (·.1 = key) with
+      | some t => some t
+      | none => (l.filter (fun t => t.2.isEmpty)).find? (·.1 = key)) = l.find? (·.1 = key) := by
+  induction l with
+  | nil => rfl
+  | cons t r ih =>
+    simp only [List.map_cons, List.nodup_cons] at hnd
+    have ih' := ih hnd.2
+    by_cases hk : t.1 = key
+    · -- by uniqueness the key does not occur in the rest
+      have hnot : ∀ q : String × List Char → Bool, (r.filter q).find? (·.1 = key) = none := by
+        intro q
+        rw [List.find?_eq_none]
+        intro x hx hxe
+        have hx' : x ∈ r := (List.mem_filter.mp hx).1
+        apply hnd.1
+        rw [hk]
+        have : x.1 = key := by simpa using hxe
+        rw [← this]
+        exact List.mem_map_of_mem hx'
+      by_cases he : t.2.isEmpty = true
+      · simp [List.filter_cons, he, hk, hnot]
+      · simp [List.filter_cons, he, hk]
+    · by_cases he : t.2.isEmpty = true
+      · simpa [List.filter_cons, he, hk] using ih'
+      · simpa [List.filter_cons, he, hk] using ih'
+
+/-- what `trap` shows for a condition in a freshly entered subshell is what the parent shell has -/
+theorem trap_subshell_shows_parent (s : State) (hn : TrapKeysNodup s) (hp : s.parentCmds = []) (c : String) :
+    s.enterSubshell.trapShown c = s.trapShown c := by
+  unfold State.trapShown State.enterSubshell
+  simp only [hp, List.find?_nil]
+  exact find_split_cmd_ignore s.traps c hn
+
+/-- ★ `trap` listing taken in a subshell (`saved=$(trap)`, `trap | filter`, `(trap)`): for every state of the
+    parent shell it is, character for character, the parent's listing — every condition, EXIT included. -/
+theorem trap_subshell_listing_eq (s : State) (hn : TrapKeysNodup s) (hp : s.parentCmds = []) :
+    listTrap s.enterSubshell = listTrap s := by
+  unfold listTrap
+  simp only [trap_subshell_shows_parent s hn hp]
+
+/-- ★ end to end: for EVERY trap of the parent shell (any condition of `condOrder`, EXIT included, any
+    action) the listing printed in a subshell has a line for it, and evaluating that line in a fresh shell
+    sets exactly that action for that condition. -/
+theorem trap_subshell_listing_recreates (s : State) (hn : TrapKeysNodup s) (hp : s.parentCmds = [])
+    (cond : String) (hc : cond ∈ condOrder) (action : List Char)
+    (h : s.traps.find? (·.1 = cond) = some (cond, action)) :
+    s.enterSubshell.trapShown cond = some (cond, action)
+      ∧ evalTrapLine (printTrap (cond, action)) = some (cond, action) := by
+  refine ⟨?_, trap_line_recreates cond hc action⟩
+  rw [trap_subshell_shows_parent s hn hp]
+  simp [State.trapShown, hp, h]
+
 /-! ### the Spec column's independent reading is characterised -/
 
 theorem quoteEscaped_four : ∀ c ∈ quoteEscaped, c = '$' ∨ c = '`' ∨ c = '"' ∨ c = '\\' := by decide
@@ -293,6 +376,12 @@ theorem spec_posix_reading_agrees (s : List Char) : specAgrees s = true := by
     simp [this]
 
 /-! Non-vacuity -/
+/-- an EXIT trap with a command action is still listed in a subshell (seeded change round 4: the EXIT
+    condition must be remembered in `parent_state` like the signals) -/
+example : listTrap (({} : State).setTrap "EXIT" "echo bye".toList |>.setTrap "INT" []).enterSubshell
+    = "trap -- 'echo bye' EXIT\ntrap -- '' INT\n".toList := by decide
+example : TrapKeysNodup (({} : State).setTrap "EXIT" "echo bye".toList) :=
+  setTrap_nodup _ _ _ trapKeys_nodup_empty
 example : evalDeclLine "typeset" "typeset -r -x -- '-a b'='c d'\n".toList
     = some { name := "-a b".toList, value := .scalar "c d".toList, exported := true, readonly := true } :=
   typeset_line_recreates
